@@ -135,6 +135,16 @@ def run(chk):
     from .common import index_width_lint
     index_width_lint(chk, repo, 'R01.17', ['TidalPy/RadialSolver/**/*.pyx', 'TidalPy/utilities/dimensions/*.pyx'])
     chk.floor('R01.17', 30)
+    # ---- R01.18 the closed form is reached only from regular starting solutions: the rules of C04 that concern solid layers (span of the starting vectors invariant under the
+    #      solver's own equations, slot discipline, the z / phi / psi series, dispatch and the arguments the solver hands to the starting-condition driver) under this property
+    from .common import RuleAlias
+    from . import c04 as C4
+    al = RuleAlias(chk, 'R01.18', lambda rule, inst: (rule in ('R04.1', 'R04.3') and '_solid_' in inst) or rule in ('R04.2', 'R04.8') or (rule == 'R04.4' and 'solid' in inst.lower()))
+    C4.starting_vectors(al, repo)
+    C4.series_tables(al, repo)
+    C4.driver(al, repo)
+    SW.guarded(chk, 'C01', lambda: SW.starting_arguments(al, repo, 'R04.8'))
+    chk.floor('R01.18', 30)
     # ---- R01.11 Love numbers of every requested type are read from the top row of that type's assembled solution (whole-driver symbolic execution)
     from . import solver_whole
     solver_whole.guarded(chk, 'C01', lambda: solver_whole.assembled(chk, repo, 'R01.16', None, 'R01.11', rule_span='R01.12'))
